@@ -10,7 +10,7 @@ SUBJECTS = {
  'F2': 'quantile labels use', 'F3': 'removes duplicated quantiles', 'F5': 'passes min_freq_mod', 'F11': 'keeps its history', 'F4': 'at least as frequent as min_freq',
  'F12': 'summary(feature) only lists', 'F7': 'update_discretizer accepts string', 'F18': 'summary() shows missing values grouped', 'F14': 'several unknown values',
  'F13': 'nothing to group', 'F9': 'different lengths', 'F8': 'second fit is refused', 'F10': 'both quantitative and qualitative', 'F22': 'reports missing columns',
- 'F21': 'refuses strings in a quantitative', 'F19': 'validates its inputs', 'F20': 'absent from the provided ranking', 'F25': 'replace_group_leader keeps the group',
+ 'F21': 'refuses strings in a quantitative', 'F19': 'validates its inputs', 'F20': 'absent from the provided ranking', 'F25': 'replace_group_leader keeps the group', 'F26': 'keeps raw columns when every feature',
 }
 for f in d['findings']:
     if f.get('status') != 'fixed':
